@@ -5,7 +5,8 @@ EXPLANATION = (
     "Every block that accumulates a Summary on the write path is shown to be in the normal form bases+=L, min/max folded with V, "
     "sum+=L*V, sumsq+=L*V*V with one L and one V whose provenance is the item length and value (bigWig) or the flushed depth "
     "segment (bigBed); the bigBed depth sweep's tail extension is decided by exhaustive case analysis over the order types of "
-    "(last segment end, item start, item end) and its increment/flush loops agree with the zoom sweep; per-chromosome summaries are "
+    "(last segment end, item start, item end), its increment loop stops at the first segment starting at or after the end of the entry, "
+    "segments without bases are skipped before the summary update, and its increment/flush loops agree with the zoom sweep; per-chromosome summaries are "
     "merged field-wise; the summary written by write_info is the one returned by write_vals*, at the offset recorded by write_pre; "
     "both readers decode it identically.")
 UNDECIDED = K.A_STAT + "; correctness of the sweep beyond the decided clauses (loop invariant not proven)."
